@@ -19,6 +19,11 @@ Proof. exact pick_ok_spec. Qed.
 Theorem C13_allowed : forall m p pick, In pick (allowed_picks m p) -> pick_ok m p pick = true.
 Proof. exact allowed_picks_ok. Qed.
 
+(* ... and contains every such pick: the membership test rejects exactly the picks the relation rejects *)
+Theorem C13_allowed_complete : forall m p pick, pick_ok m p pick = true -> In pick (allowed_picks m p).
+Proof. exact allowed_picks_complete. Qed.
+
+Check C13_allowed_complete : forall m p pick, pick_ok m p pick = true -> In pick (allowed_picks m p).
 Check C13_pick : forall m p shuffled, Permutation shuffled (rarest_list m) -> pick_ok m p (choose_with shuffled p) = true.
 
 (* non-vacuity: a state with two peers and three pieces on which the relation is decisive *)
@@ -35,3 +40,4 @@ Example C13_ten_pinned : session_END_GAME_LIMIT = 10. Proof. reflexivity. Qed.
 Print Assumptions C13_pick.
 Print Assumptions C13_pick_spec.
 Print Assumptions C13_allowed.
+Print Assumptions C13_allowed_complete.
